@@ -326,6 +326,11 @@ func (s *JavaFullListener) EnterAnnotation(ctx *parser.AnnotationContext) {
 	}
 
 	if !hasEnterClass {
+		// an annotation written as the value of another annotation's argument (@Table(indexes = @Index(..)))
+		// is not an annotation of the class
+		if _, nested := ctx.GetParent().(*parser.ElementValueContext); nested {
+			return
+		}
 		annotation := common_listener.BuildAnnotation(ctx)
 		if currentType == "CreatorClass" {
 			currentCreatorNode.Annotations = append(currentCreatorNode.Annotations, annotation)
